@@ -19,7 +19,7 @@ from sfc_models.equation_solver import EquationSolver, NoEquilibriumError  # noq
 
 ID = 'C15'
 LEVEL = 'exploration'
-RULE = ('systems x = a*LAG_x + c*LAG_y + b (+ 0.1*t), y = a2*LAG_y + b2 with (a,c) in {0,.5,.9,1,-.5,-1,1.05}^2 (thorough: 12 values each), b in '
+RULE = ('systems x = a*LAG_x + c*LAG_y + b (+ 0.1*t), y = a2*LAG_y + b2 with (a,c) in {0,.5,.9,1,-.5,-1,1.05}^2 (thorough: 12 values each; one-state systems also with a in {60,-60,1e200}: overflow inside the search horizon), b in '
         '{0,1,-1,10,-10}, initial values in {0,5,-5}, read-outs z=-x (decorative) and al=x (alias), exogenous shift g; x search horizon '
         '{1,2,3,20,200} x tolerance {1e-4,1e-3} x excluded list {default, +z (a read-out nothing depends on)}; oracle: after acceptance one more SolveStep with exogenous '
         'frozen at k=0 moves every non-excluded variable by <= 2 tol (absolute or relative; violated only if both >= 20 tol), rejection is '
@@ -48,6 +48,12 @@ def one_state(a, b, x0, timedep, shift):
     exos = [('g', '[2., 3., 4., 5., 6.]')] if shift else []
     return Block([('x', rhs), ('z', '-x'), ('al', 'x'), ('u', '2*al')], lags=[('LAG_x', 'x')], ics={'x': repr(x0)},
                  exos=exos, maxtime=3)
+
+
+def bare_state(kind, a, b, x0):
+    """One state and nothing else (no read-outs): linear a*LAG_x + b, or quadratic a*LAG_x*LAG_x + b."""
+    rhs = '%r*LAG_x + %r' % (a, b) if kind == 'lin' else '%r*LAG_x*LAG_x + %r' % (a, b)
+    return Block([('x', rhs)], lags=[('LAG_x', 'x')], ics={'x': repr(x0)}, maxtime=3)
 
 
 def two_state(a, c, b, x0, a2, b2, y0):
@@ -92,6 +98,11 @@ def check(block, T, tol, excl_x, case):
     for v, e in s.Parser.Exogenous:
         s.TimeSeries[v] = [s.TimeSeries[v][0]] * (s.Parser.MaxTime + 1)
     v0 = dict((v, x[0]) for v, x in s.TimeSeries.items())
+    import math
+    for v in sorted(v0):
+        if v not in excluded and isinstance(v0[v], float) and not math.isfinite(v0[v]):
+            viols.append(core.violation('accepted-nonfinite-state', '%s installed as %r by an accepted search' % (v, v0[v]), case))
+            return 'accepted', viols, 0
     try:
         s.SolveStep(1)
     except Exception as e:
@@ -118,7 +129,8 @@ def check(block, T, tol, excl_x, case):
 def units(tier):
     out = []
     grid = AC if tier == 'quick' else AC_THOROUGH
-    for a in grid:
+    for a in list(grid) + [60., -60., 1e200]:
+        out.append({'part': 'bare', 'a': a})
         out.append({'part': 'one', 'a': a})
         for c in grid:
             out.append({'part': 'two', 'a': a, 'c': c})
@@ -130,7 +142,12 @@ def run_unit(unit, tier):
     dig = core.Digest()
     b_ = BOUNDS[tier]
     cases = []
-    if unit['part'] == 'one':
+    if unit['part'] == 'bare':
+        for kind, b, x0 in itertools.product(('lin', 'quad'), BS, INITS):
+            blk = bare_state(kind, unit['a'], b, x0)
+            for T in b_['one_state_horizons']:
+                cases.append((blk, T, {'sys': 'bare', 'kind': kind, 'a': unit['a'], 'b': b, 'x0': x0}))
+    elif unit['part'] == 'one':
         for b, x0, td, sh in itertools.product(BS, INITS, (False, True), (False, True)):
             blk = one_state(unit['a'], b, x0, td, sh)
             for T in b_['one_state_horizons']:
@@ -162,7 +179,9 @@ def run_unit(unit, tier):
 
 
 def replay(case):
-    if case['sys'] == 'one':
+    if case['sys'] == 'bare':
+        blk = bare_state(case['kind'], case['a'], case['b'], case['x0'])
+    elif case['sys'] == 'one':
         blk = one_state(case['a'], case['b'], case['x0'], case['timedep'], case['shift'])
     else:
         blk = two_state(case['a'], case['c'], case['b'], case['x0'], case['a2'], case['b2'], case['y0'])
